@@ -149,6 +149,18 @@ Proof.
     destruct (c_locked c); unfold with_c in H; inversion H; subst s'; clear H;
       (intros y Hy Hnd'; simpl in *; apply In_upd in Hy; destruct Hy as [->|Hy]; [|apply Hal; auto];
        simpl in *; apply Hal; auto).
+  - (* LAcqLost *)
+    inv_nth2 H c Hc. destruct (c_pc c) eqn:Hpc; try discriminate.
+    assert (Hin : In c (s_cs s)) by (eapply nth_error_In; eauto).
+    destruct (Hrange c Hin) as [Hpos _].
+    unfold e_put_if_absent in H.
+    destruct (e_get Z.eqb (s_kv s) (c_lease c)) eqn:Hg.
+    + unfold with_c in H; inversion H; subst s'; clear H. eapply all_live_upd; eauto; congruence.
+    + destruct (e_put Z.eqb (s_kv s) (c_lease c) tt (c_lease c)) as [kv'|] eqn:Hp;
+        unfold with_c in H; inversion H; subst s'; clear H.
+      * destruct (put_new_ok _ _ _ Hkv Hpos Hg Hp) as (_ & _ & _ & _ & Hl').
+        eapply all_live_upd; eauto; try congruence; try (intros x Lx; rewrite Hl'; auto).
+      * eapply all_live_upd; eauto; congruence.
 Qed.
 
 Lemma pc_at_upd : forall s kv' j c' i,
@@ -220,6 +232,10 @@ Proof.
     destruct (c_locked c); unfold with_c in H; inversion H; subst s';
       rewrite pc_at_upd by auto; destruct (Nat.eqb i i0) eqn:E; auto;
       apply Nat.eqb_eq in E; subst; simpl; rewrite <- (Hpc c Hc); auto.
+  - destruct (c_pc c) eqn:P; try discriminate.
+    destruct (Nat.eqb i i0) eqn:E; [apply Nat.eqb_eq in E; subst; rewrite (Hpc c Hc) in P; discriminate|].
+    destruct (e_put_if_absent Z.eqb (s_kv s) (c_lease c) tt (c_lease c)) as [[b kv']|];
+      unfold with_c in H; inversion H; subst s'; rewrite pc_at_upd by auto; rewrite E; auto.
 Qed.
 
 Lemma okl_not_exit : forall ins l i, okl ins l -> In i ins -> l <> LExit i.
